@@ -78,7 +78,31 @@ def fhash(path):
     return h
 
 
+_rp_cache = {}
+_deps_cache = {}
+
+
+def _realpath(d):
+    r = _rp_cache.get(d)
+    if r is None:
+        r = _rp_cache[d] = os.path.realpath(d)
+    return r
+
+
 def parse_deps(dfile):
+    try:
+        st = os.stat(dfile)
+        ck = (dfile, st.st_mtime_ns, st.st_size)
+        if ck in _deps_cache:
+            return _deps_cache[ck]
+    except OSError:
+        return None
+    r = _parse_deps(dfile)
+    _deps_cache[ck] = r
+    return r
+
+
+def _parse_deps(dfile):
     try:
         txt = open(dfile).read()
     except OSError:
@@ -89,9 +113,12 @@ def parse_deps(dfile):
     deps = txt.split(":", 1)[1].split()
     # only files that can change between runs: /repo and /verif; resolve symlinks
     out = []
+    rr = _realpath(REPO) + "/"
     for d in deps:
-        r = os.path.realpath(d)
-        if r.startswith(os.path.realpath(REPO) + "/") or r.startswith(VERIF + "/"):
+        if not (d.startswith("/repo") or d.startswith(REPO) or d.startswith(VERIF) or not d.startswith("/")):
+            continue            # system header
+        r = _realpath(d)
+        if r.startswith(rr) or r.startswith(VERIF + "/"):
             out.append(r)
     return sorted(set(out))
 
